@@ -5,6 +5,7 @@ import (
 	"fmt"
 	"sort"
 	"strings"
+	"sync/atomic"
 
 	"github.com/dtn7/dtn7-go/pkg/bpv7"
 	"github.com/dtn7/dtn7-go/pkg/cla"
@@ -25,7 +26,11 @@ type nhConcArg struct {
 	Mode  string `json:"mode"` // failures | submit
 	Peers int    `json:"peers"`
 	L     uint64 `json:"l,omitempty"`
-	N     int    `json:"n,omitempty"` // concurrent submissions
+	N     int    `json:"n,omitempty"`   // concurrent submissions
+	Txn   bool   `json:"txn,omitempty"` // schedule points inside the store's transactions (codec hooks)
+	// IDsOnly restricts the oracle of the submit mode to what C14 states (every bundle filed under its own ID);
+	// otherwise the final record of every bundle is also compared with a sequential reference run (C05).
+	IDsOnly bool `json:"ids_only,omitempty"`
 }
 
 func init() { schedScenarios["nhconc"] = schedScenario{Setup: nhConcSetup} }
@@ -42,7 +47,10 @@ func nhConcSetup(arg json.RawMessage) (func(), func(vrt.Result) (string, string,
 	for i := 1; i <= a.Peers; i++ {
 		peers = append(peers, fmt.Sprintf("r%d", i))
 	}
-	cleanup := func() { n.destroy() }
+	cleanup := func() { atomic.StoreInt32(&vrt.TxnPoints, 0); n.destroy() }
+	if a.Txn {
+		atomic.StoreInt32(&vrt.TxnPoints, 1)
+	}
 	switch a.Mode {
 	case "failures":
 		b := gen.Spec{Dst: "dtn://dest/x", Src: "dtn://node/app", Rpt: "dtn://node/app", PCRC: 2, Time: DtnNow(), Lifetime: 3600000, PayLen: 6, PaySeed: 1}.Build()
@@ -153,11 +161,33 @@ func nhConcSetup(arg json.RawMessage) (func(), func(vrt.Result) (string, string,
 			}
 			return obs, "", ""
 		}
-		return body, judge, func() { vrt.UntrackMaps(); n.destroy() }
+		return body, judge, func() { vrt.UntrackMaps(); cleanup() }
 	case "submit":
 		var bs []bpv7.Bundle
 		for i := 0; i < a.N; i++ {
 			bs = append(bs, gen.Spec{Dst: "dtn://dest/x", Src: "dtn://node/app", Rpt: "dtn://node/app", PCRC: 2, Time: DtnNow(), Lifetime: 3600000, PayLen: 6, PaySeed: byte(10 * (i + 1))}.Build())
+		}
+		// differential reference: the same submissions one after the other on a second node
+		refState := map[string]string{}
+		{
+			rn, rerr := newNhNode(nhConfig{Algo: a.Algo, SprayL: a.L})
+			if rerr != nil {
+				panic(rerr)
+			}
+			for i := range bs {
+				rn.submit(bs[i])
+			}
+			pend, _ := rn.core.VerifStore().QueryPending()
+			for _, bi := range pend {
+				if len(bi.Parts) == 0 {
+					continue
+				}
+				if b, lerr := bi.Parts[0].Load(); lerr == nil {
+					si := rn.storeInfo(b.ID().Scrub())
+					refState[fmt.Sprintf("%x", payloadOf(&b))] = fmt.Sprintf("pending=%v constraints=%v", si.Pending, si.Cons)
+				}
+			}
+			rn.destroy()
 		}
 		body := func() {
 			var wg vsync.WaitGroup
@@ -192,6 +222,10 @@ func nhConcSetup(arg json.RawMessage) (func(), func(vrt.Result) (string, string,
 				}
 				seen[pl] = bi.Id
 				ids = append(ids, bi.Id)
+				si := n.storeInfo(b.ID().Scrub())
+				if got := fmt.Sprintf("pending=%v constraints=%v", si.Pending, si.Cons); !a.IDsOnly && got != refState[pl] {
+					return strings.Join(ids, " ") + " state-differs", "concurrently-submitted-bundle-state-differs", fmt.Sprintf("%d bundles were submitted concurrently; the record of %s ends as {%s}, after the same submissions one after the other it is {%s}: a store update was lost", len(bs), bi.Id, got, refState[pl])
+				}
 			}
 			sort.Strings(ids)
 			obs = strings.Join(ids, " ")
